@@ -170,6 +170,11 @@ func (w *wireReq) encode(recovery bool) (hdr map[string]string, body []byte) {
 	if w.Truncate > 0 && w.Truncate < len(body) {
 		body = body[:w.Truncate]
 	}
+	if w.Truncate < 0 && w.Gzip == 0 && len(meta)-w.Truncate-1 < len(body) {
+		// -1: the body ends right after the part descriptors (the receiver
+		// prepares the staged files and then gets no data); -k: k-1 bytes later
+		body = body[:len(meta)-w.Truncate-1]
+	}
 	return
 }
 
